@@ -416,5 +416,11 @@ func (w *w1) finish() {
 		w.judgeTopicKeys()
 	case "C19":
 		w.judgeSegmentOverwrites()
+	case "C11":
+		// a sweep request that is still unanswered when the run is cut off, although no fault was injected
+		// and the broker is up: the request got no reply
+		if w.sweepInFlight != "" && w.sim.Stats.Truncated && len(w.sim.Stats.FaultsFired) == 0 {
+			w.sim.Fail("C11", "no-reply", "%s is still unanswered after %d scheduler steps and %s of virtual time (no fault injected, broker up)", w.sweepInFlight, w.sim.Step(), w.sim.Now().Round(1000000))
+		}
 	}
 }
